@@ -82,6 +82,23 @@ fn series_obs(sr: &Series1, rec: &Value, s: f64) -> Value {
     o["mids"] = guard(&|| json!({"p": false, "v": xv.windows(2).map(|w| qc(sr.interpolate(w[0] + (w[1] - w[0]) * 0.5), QY)).collect::<Vec<_>>()}));
     o["below"] = guard(&|| json!({"p": false, "v": qc(sr.interpolate(next_down(xv[0])), QY)}));
     o["above"] = guard(&|| json!({"p": false, "v": qc(sr.interpolate(next_up(xv[n - 1])), QY)}));
+    // the vectorised evaluation (Func1::fs over a whole domain) must agree bit for bit with the pointwise one, NaN included:
+    // domain = one ulp below, every knot and segment mid point, one ulp above
+    o["fs"] = guard(&|| {
+        use engeom::func1::Func1;
+        let mut d = vec![next_down(xv[0])];
+        for k in 0..n { d.push(xv[k]); if k + 1 < n && xv[k + 1] > xv[k] { d.push(xv[k] + (xv[k + 1] - xv[k]) * 0.5); } }
+        d.push(next_up(xv[n - 1]));
+        d.dedup();
+        match DiscreteDomain::try_from(d.clone()) {
+            Err(_) => json!({"p": false, "agree": true, "n": 0}),
+            Ok(dom) => {
+                let v = sr.fs(&dom);
+                let agree = v.len() == d.len() && d.iter().zip(v.iter()).all(|(x, y)| { let f = sr.f(*x); (f.is_nan() && y.is_nan()) || f == *y });
+                json!({"p": false, "agree": agree, "n": d.len()})
+            }
+        }
+    });
     o["xmin"] = qc(sr.x_min() / s, QX);
     o["xmax"] = qc(sr.x_max() / s, QX);
     // absolute probes
